@@ -336,4 +336,40 @@ theorem gt_translate_lt (l : Level) (d1 d2 : List Nat) (s1 s2 : Nat) (ntt : Bool
       | error e => rfl
       | ok ys => simp [Except.map, flattenCt]
 
+/-- **`Evaluator::translate_inplace` = `ctTranslate`, all size pairs.**  The function generated from src/evaluator.rs (skeleton over the
+    flat buffers; ciphertext checks, parameter / NTT-form / scale comparisons passed, EQUAL correction factors) equals the hand model on
+    `unflattenCt`, for every pair of sizes whose maximum `Ciphertext::resize` accepts (0 or 2..16; otherwise the code panics in `resize`,
+    a check the model does not have): result buffer = the flattened model result, new size = the maximum, factor unchanged.  Both sides
+    work through the polynomials left to right, so they agree on failures too (no range hypothesis on the coefficients).
+    Hypotheses: buffer lengths = size × (components × degree) (the shape `is_buffer_valid` checks), at least one modulus, and the longer
+    buffer's length fits a usize. -/
+theorem gt_translate_inplace_eq_general (l : Level) (d1 d2 : List Nat) (s1 s2 : Nat) (ntt : Bool) (cf : Nat) (sub : Bool) (t : Modulus)
+    (hs : max s1 s2 = 0 ∨ (2 ≤ max s1 s2 ∧ max s1 s2 ≤ 16)) (hl1 : 1 ≤ l.size)
+    (h1 : d1.length = s1 * (l.size * l.n)) (h2 : d2.length = s2 * (l.size * l.n)) (hpl : l.n * l.size < B64)
+    (hB : max s1 s2 * (l.size * l.n) < B64) :
+    GenC.ct_translate_inplace_eq d1 s1 cf d2 s2 cf sub true true true false true l.qs.toList t l.n =
+      Except.map (fun c => (flattenCt l c, max s1 s2, cf)) (ctTranslate l (unflattenCt l s1 d1 ntt cf) (unflattenCt l s2 d2 ntt cf) sub) := by
+  by_cases hle : s2 ≤ s1
+  · have hmax : max s1 s2 = s1 := Nat.max_eq_left hle
+    rw [hmax] at hs hB
+    exact gt_translate_ge l d1 d2 s1 s2 ntt cf sub t hle hs hl1 h1 h2 hpl (by rw [h1]; exact hB)
+  · have hlt : s1 < s2 := by omega
+    have hmax : max s1 s2 = s2 := Nat.max_eq_right (Nat.le_of_lt hlt)
+    rw [hmax] at hs hB
+    exact gt_translate_lt l d1 d2 s1 s2 ntt cf sub t hlt (by omega) hl1 h1 h2 hpl (by rw [h2]; exact hB)
+
+/-- the size `resize` refuses (1, or more than 16 polynomials) is refused by the generated function whatever the data is -/
+theorem gt_translate_inplace_refuses_size (d1 d2 : List Nat) (s1 s2 cf : Nat) (sub : Bool) (mods : List Modulus) (t : Modulus) (n : Nat)
+    (h : (max s1 s2 < 2 ∧ max s1 s2 ≠ 0) ∨ max s1 s2 > 16) :
+    GenC.ct_translate_inplace_eq d1 s1 cf d2 s2 cf sub true true true false true mods t n = .error .refused := by
+  unfold GenC.ct_translate_inplace_eq
+  simp only [if_true, ne_eq, not_true_eq_false, if_false, Bool.false_eq_true, bind, Except.bind, pure, Except.pure, h]
+
+/-- the top-level generated function with EQUAL factors is the equal-factor routine (its balancing branch is not entered) -/
+theorem gt_translate_inplace_top_eq (d1 d2 : List Nat) (s1 s2 cf : Nat) (sub v1 v2 sp nd ss : Bool) (mods : List Modulus) (t : Modulus) (n : Nat) :
+    GenC.ct_translate_inplace d1 s1 cf d2 s2 cf sub v1 v2 sp nd ss mods t n =
+      GenC.ct_translate_inplace_eq d1 s1 cf d2 s2 cf sub v1 v2 sp nd ss mods t n := by
+  unfold GenC.ct_translate_inplace GenC.ct_translate_inplace_eq
+  simp only [ne_eq, not_true_eq_false, if_false]
+
 end HC
